@@ -42,7 +42,11 @@ def cloud_strategy(draw, tier):
             "which": draw(st.sampled_from(["cuntz", "cuntz", "mst"])),
             "clustered": draw(st.booleans()),
             # the cloud as the caller may hold it: float64 / float32 arrays, or integer (voxel) coordinates
-            "dtype": draw(st.sampled_from(["float64", "float64", "float64", "float32", "int32", "int64"]))}
+            "dtype": draw(st.sampled_from(["float64", "float64", "float64", "float32", "int32", "int64"])),
+            # the cloud may sit far from the origin (stack coordinates): multiples of 1024, exact in float32
+            "far": draw(st.sampled_from([None, None, None, [8192, -16384, 4096], [-20480, 1024, 12288]])),
+            # the transform object was used on a small cloud before; the limit given through the deprecated keyword
+            "reused": draw(st.integers(0, 3)) == 0, "legacy_kw": draw(st.integers(0, 3)) == 0}
 
 
 def _points(case):
@@ -67,10 +71,16 @@ def _points(case):
                 p[0] += 1
             seen.add(tuple(p))
             out.append(p)
-        return np.array(out, dtype=dtype)
+        out = np.array(out, dtype=np.int64)
+        if case.get("far"):
+            out = out + np.array(case["far"], dtype=np.int64)
+        return out.astype(dtype)
     P = np.array(pts, dtype=np.float64) / 4.0
     jitter = (rs.rand(n, 3) - 0.5) * 0.05 * np.sqrt(2.0)
-    return (P + jitter).astype(dtype)
+    out = P + jitter
+    if case.get("far"):
+        out = out.astype(dtype).astype(np.float64) + np.array(case["far"], dtype=np.float64)  # exact shift of the stored values
+    return out.astype(dtype)
 
 
 def ref_greedy(P, bf, k, excl, tie=1e-9):
@@ -150,8 +160,18 @@ def run_cloud(case, ctx):
             "bf-clipped" if which == "cuntz" and not 0 <= case["bf"] <= 1 else "bf-in-range")
     if which == "cuntz":
         tr = PointsToCuntzMST(bf=case["bf"], furcations=k, exclude_soma=excl, sort=sort)
+    elif case.get("legacy_kw"):
+        tr = PointsToMST(k_furcations=k, exclude_soma=excl, sort=sort)  # deprecated spelling of the same limit
+        ctx.cls("limit-through-deprecated-keyword")
     else:
         tr = PointsToMST(k, exclude_soma=excl, sort=sort)
+    if case.get("far"):
+        ctx.cls("far-from-origin")
+    if case.get("reused"):
+        # the same object on a small cloud first (three points), then on this one
+        small = np.array([[0.0, 0.0, 0.0], [1.0, 0.25, 0.0], [0.0, 2.0, 0.5], [3.0, 3.0, 3.0]])
+        ctx.lib(f"{which}/build", tr, small)
+        ctx.cls("transform-object-reused")
     snapshot = P.copy()
     args = (P,) if soma is None else (P, soma)
     if is_int:
@@ -235,5 +255,6 @@ SUBCHECKS = [
     Sub("cloud", cloud_strategy, run_cloud, quick=6000, thorough=40000, shards_quick=8,
         required={"which:mst": 200, "which:cuntz": 400, "limit:-1": 200, "limit:1": 100, "limit:2": 200, "limit:3": 100,
                   "soma-given": 300, "first-point-is-root": 200, "bf-visible": 150, "limit-bites": 100, "plain-mst": 40,
-                  "bf-clipped": 50, "sort": 300, "nosort": 300, "dtype:float32": 200, "dtype:int32": 200, "dtype:int64": 200}),
+                  "bf-clipped": 50, "sort": 300, "nosort": 300, "dtype:float32": 200, "dtype:int32": 200, "dtype:int64": 200, "far-from-origin": 300,
+                  "transform-object-reused": 300, "limit-through-deprecated-keyword": 60}),
 ]
